@@ -1,4 +1,4 @@
-CONSTANT Slice = "all"
+CONSTANT Rate = 1
 INIT MCInit
 NEXT MCNext
 INVARIANTS Laws Emit
